@@ -317,8 +317,48 @@ def check_dropout_stats(c, rec):
         raise Violation("dropout_independence", "two consecutive training calls used the identical mask")
 
 
+@st.composite
+def _bn_init(draw):
+    c = draw(bn_histories())
+    return {"opts": c["opts"]}
+
+
+@st.composite
+def _bn_command(draw, ):
+    # commands depend on the layer's channel count / rank: drawn against a fixed small configuration grid
+    return draw(st.integers(0, 10 ** 6))
+
+
+def _bn_assemble(init, cmds):
+    # deterministic expansion of the drawn integers into commands for this layer's C and rank
+    o = init["opts"]
+    C, rank = o["C"], o["rank"]
+    steps = []
+    for v in cmds:
+        kinds = ["train", "eval", "eval", "forward", "forward", "forward", "forward_backward", "load"]
+        k = kinds[v % len(kinds)]
+        s_ = {"k": k}
+        r = v // 8
+        if k in ("forward", "forward_backward"):
+            N = 2 + r % 4
+            shp = [N, C] + [1 + (r // (4 * (i + 1))) % 3 for i in range(rank - 2)]
+            n = int(np.prod(shp))
+            perm = [(i * 7 + r) % n for i in range(n)]
+            if len(set(perm)) < n:
+                perm = list(range(n))
+            s_.update(shape=shp, v=[(p_ - n // 2) / 8.0 for p_ in perm], twice=bool(r % 2), offset=[(r // 5 + i) % 5 // 4 for i in range(C)],
+                      defer=bool((r // 3) % 2), g=[((r + i) % 9 - 4) / 4.0 for i in range(5)])
+        elif k == "load":
+            s_.update(rm=[((r + 3 * i) % 33 - 16) / 8.0 for i in range(C)], rv=[(1 + (r + 5 * i) % 40) / 8.0 for i in range(C)])
+        steps.append(s_)
+    return {"opts": o, "steps": steps}
+
+
 def subchecks():
-    return [SubCheck("batchnorm", check_bn, bn_histories, quick=600, thorough=4000, shards_quick=6, shards_thorough=8),
+    from ..core import command_machine
+    return [SubCheck("batchnorm_rule_based", check_bn, None, steps=14, quick=60, thorough=500, shards_quick=2, shards_thorough=4,
+                     machine=command_machine(_bn_init(), _bn_command(), _bn_assemble)),
+            SubCheck("batchnorm", check_bn, bn_histories, quick=600, thorough=4000, shards_quick=6, shards_thorough=8),
             SubCheck("dropout", check_dropout, dropout_histories, quick=700, thorough=5000, shards_quick=4, shards_thorough=4),
             SubCheck("dropout_statistics", check_dropout_stats, dropout_stat_cases, quick=40, thorough=600, shards_quick=2,
                      shards_thorough=4)]
